@@ -280,8 +280,10 @@ func (c *compiler) compileType(y *Type, parent Leafable, isUnion bool) error {
 		resolvedMeta := Find(parent, y.path)
 		if resolvedMeta == nil {
 			return fmt.Errorf("%s - %s path cannot be resolved", SchemaPath(parent), y.ident)
+		} else if hasType, isLeaf := resolvedMeta.(HasType); !isLeaf {
+			return fmt.Errorf("%s - %s path does not lead to a leaf", SchemaPath(parent), y.ident)
 		} else {
-			y.delegate = resolvedMeta.(HasType).Type()
+			y.delegate = hasType.Type()
 		}
 	} else {
 		y.delegate = y
